@@ -29,6 +29,9 @@ func Generate(r *rand.Rand, profile string) *Scenario {
 	if profile == "minrt" || profile == "elastic" {
 		return generateVictims(r, profile)
 	}
+	if profile == "bindfail" || profile == "overhead" || profile == "nested" {
+		return generateTight(r, profile)
+	}
 	pick := func(vs ...int) int { return vs[r.Intn(len(vs))] }
 	chance := func(p float64) bool { return r.Float64() < p }
 	sc := &Scenario{Class: profile}
@@ -684,6 +687,85 @@ func generateVictims(r *rand.Rand, profile string) *Scenario {
 		sc.Jobs = append(sc.Jobs, Job{Name: fmt.Sprintf("j%d", k), Queue: q, Prio: prio, Preempt: pre, Min: size, Age: 600 + 60*c, LastStart: -1})
 		for i := 0; i < size; i++ {
 			sc.Pods = append(sc.Pods, Pod{Name: fmt.Sprintf("j%d-p%d", k, i+1), Job: k, Cpu: 500, Mem: 500, Gpu: 1, Phase: "P"})
+		}
+	}
+	sc.Normalize()
+	return sc
+}
+
+// generateTight builds small clusters whose capacity is tight for a specific interaction:
+//   bindfail  a gang whose k-th BindRequest creation fails while other pending jobs want exactly the
+//             capacity of its already bound members (Commit's failure path must not give it back)
+//   overhead  pods with init containers larger than their containers plus RuntimeClass overhead on
+//             nodes where only the correct request (max(containers, init) + overhead) decides the fit
+//   nested    a hierarchical pod group (leader under the root, workers in a pod set nested under an
+//             intermediate sub-group) on a node with one idle GPU and one GPU held by a terminating
+//             pod, so that part of the gang can be bound and the rest only nominated
+func generateTight(r *rand.Rand, profile string) *Scenario {
+	pick := func(vs ...int) int { return vs[r.Intn(len(vs))] }
+	sc := &Scenario{Class: profile}
+	sc.Cfg = Cfg{Placement: []string{"binpack", "spread"}[r.Intn(2)], Consolidation: pick(0, 1), Signatures: pick(0, 1),
+		ConsReclaim: 0, SatMult: 1000, Cycles: pick(1, 2), Env: []string{"closed", "stall"}[r.Intn(2)], FullHier: 1}
+	sc.Queues = []Queue{{Name: "d1", Parent: 0, Prio: 100, GQ: -1, GL: -1, GW: 1, CQ: -1, CL: -1, MQ: -1, ML: -1},
+		{Name: "q1", Parent: 1, Prio: 100, GQ: -1, GL: -1, GW: 1, CQ: -1, CL: -1, MQ: -1, ML: -1},
+		{Name: "q2", Parent: 1, Prio: 100, GQ: -1, GL: -1, GW: 1, CQ: -1, CL: -1, MQ: -1, ML: -1}}
+	switch profile {
+	case "bindfail":
+		g := pick(2, 3, 4)
+		sc.Nodes = []Node{{Name: "n1", Cpu: 16000, Mem: 64000, Pods: 110, Gpus: g, GpuMem: 40000, Ready: 1}}
+		if pick(0, 1) == 1 {
+			sc.Nodes = append(sc.Nodes, Node{Name: "n2", Cpu: 16000, Mem: 64000, Pods: 110, Gpus: pick(1, 2), GpuMem: 40000, Ready: 1})
+		}
+		gang := pick(2, 2, 3)
+		if gang > g {
+			gang = g
+		}
+		sc.Jobs = append(sc.Jobs, Job{Name: "j1", Queue: 2, Prio: 75, Preempt: 1, Min: gang, Age: 7200, LastStart: -1})
+		for i := 0; i < gang; i++ {
+			sc.Pods = append(sc.Pods, Pod{Name: fmt.Sprintf("j1-p%d", i+1), Job: 1, Cpu: 500, Mem: 500, Gpu: 1, Phase: "P"})
+		}
+		sc.Cfg.BindFail = []int{2 + r.Intn(gang-1)} // a later member of the gang fails, earlier ones succeeded
+		nj := pick(1, 2)
+		for j := 0; j < nj; j++ {
+			size := pick(1, 2)
+			sc.Jobs = append(sc.Jobs, Job{Name: fmt.Sprintf("j%d", j+2), Queue: 2 + r.Intn(2), Prio: 50, Preempt: 1, Min: 1, Age: 600 + 60*j, LastStart: -1})
+			sc.Pods = append(sc.Pods, Pod{Name: fmt.Sprintf("j%d-p1", j+2), Job: j + 2, Cpu: 500, Mem: 500, Gpu: pick(1, size, g), Phase: "P"})
+		}
+	case "overhead":
+		cap := pick(4000, 6000, 8000)
+		sc.Nodes = []Node{{Name: "n1", Cpu: cap, Mem: 64000, Pods: 110, Gpus: 0, GpuMem: 40000, Ready: 1}}
+		if pick(0, 1) == 1 {
+			sc.Nodes = append(sc.Nodes, Node{Name: "n2", Cpu: cap, Mem: 64000, Pods: 110, Gpus: 0, GpuMem: 40000, Ready: 1})
+		}
+		nj := pick(1, 2, 3)
+		for j := 0; j < nj; j++ {
+			c := pick(500, 1000, 2000)
+			initC := pick(0, c+1000, c+2000, cap-1000, cap-500)
+			ovh := pick(0, 500, 1000, 1500, 2000)
+			sc.Jobs = append(sc.Jobs, Job{Name: fmt.Sprintf("j%d", j+1), Queue: 2 + r.Intn(2), Prio: 50, Preempt: 1, Min: 1, Age: 600 + 60*j, LastStart: -1})
+			sc.Pods = append(sc.Pods, Pod{Name: fmt.Sprintf("j%d-p1", j+1), Job: j + 1, Cpu: c, Mem: 500, InitCpu: initC, OvhCpu: ovh, Phase: "P"})
+		}
+	case "nested":
+		sc.Nodes = []Node{{Name: "n1", Cpu: 16000, Mem: 64000, Pods: 110, Gpus: 2, GpuMem: 40000, Ready: 1}}
+		sc.Cfg.Env = "stall"
+		// a terminating whole-GPU pod holds one device
+		sc.Jobs = append(sc.Jobs, Job{Name: "j1", Queue: 3, Prio: 50, Preempt: 1, Min: 1, Age: 7200, LastStart: 36000})
+		sc.Pods = append(sc.Pods, Pod{Name: "j1-p1", Job: 1, Cpu: 500, Mem: 500, Gpu: 1, Phase: "R", Node: 1, Term: 1})
+		workers := pick(2, 2, 3)
+		job := Job{Name: "j2", Queue: 2, Prio: 50, Preempt: 1, Min: 1 + workers, Age: 600, LastStart: -1,
+			Subs: []Sub{{Name: "leader", Min: 1}, {Name: "workers0", Min: workers, Parent: "workers"}, {Name: "workers", Min: 0}}}
+		if pick(0, 1) == 1 { // flat variant as control
+			job.Subs = []Sub{{Name: "leader", Min: 1}, {Name: "workers0", Min: workers}}
+		}
+		sc.Jobs = append(sc.Jobs, job)
+		sc.Pods = append(sc.Pods, Pod{Name: "j2-p1", Job: 2, Cpu: 500, Mem: 500, Gpu: 0, Sub: 1, Phase: "P"})
+		for i := 0; i < workers; i++ {
+			sc.Pods = append(sc.Pods, Pod{Name: fmt.Sprintf("j2-p%d", i+2), Job: 2, Cpu: 500, Mem: 500, Gpu: 1, Sub: 2, Phase: "P"})
+		}
+		if workers == 3 {
+			sc.Nodes[0].Gpus = 3
+			sc.Jobs = append(sc.Jobs, Job{Name: "j3", Queue: 3, Prio: 50, Preempt: 1, Min: 1, Age: 7100, LastStart: 36000})
+			sc.Pods = append(sc.Pods, Pod{Name: "j3-p1", Job: 3, Cpu: 500, Mem: 500, Gpu: 1, Phase: "R", Node: 1, Term: pick(0, 1)})
 		}
 	}
 	sc.Normalize()
